@@ -368,6 +368,10 @@ class OrderedMultiDict(dict):
             return True
         elif hasattr(other, 'keys'):
             for selfk in self:
+                # (membership first: a mapping with __missing__, like
+                # defaultdict or Counter, answers for keys it lacks)
+                if selfk not in other:
+                    return False
                 try:
                     if other[selfk] != self[selfk]:
                         return False
